@@ -180,28 +180,54 @@ fn model(inp: &Input) -> Model {
     }
 }
 
-fn builder_of(inp: &Input, sink: &routing::Sink) -> (log4rs::config::runtime::ConfigBuilder, Root) {
-    let mut b = Config::builder();
-    for (i, a) in inp.appenders.iter().enumerate() {
-        b = b.appender(Appender::builder().build(
-            a.clone(),
-            Box::new(Cap {
-                name: format!("{}#{}", a, i),
-                sink: sink.clone(),
-            }),
-        ));
-    }
-    for l in &inp.loggers {
-        let mut lb = Logger::builder().additive(l.additive);
-        for r in &l.refs {
-            lb = lb.appender(r.clone());
+/// The builder's entry points in every mixture: items one by one, in bulk, `k` singly and the rest in bulk,
+/// a bulk followed by single items, two bulks - the order of the items is the order of the calls.
+fn feed<T, B>(mut b: B, items: Vec<T>, style: usize, one: impl Fn(B, T) -> B, many: impl Fn(B, Vec<T>) -> B) -> B {
+    let n = items.len();
+    let cut = match style % 5 {
+        0 => n,         // all singly
+        1 => 0,         // one bulk
+        2 => 1.min(n),  // first singly, rest in bulk (the batch is longer than what is there)
+        3 => n / 2,     // half singly, half in bulk
+        _ => n,         // (4) bulk of the first half, then singly - handled below
+    };
+    let mut it = items.into_iter();
+    if style % 5 == 4 {
+        let first: Vec<T> = it.by_ref().take(n / 2).collect();
+        b = many(b, first);
+        for x in it {
+            b = one(b, x);
         }
-        b = b.logger(lb.build(l.name.clone(), l.level));
+        return b;
     }
-    let mut rb = Root::builder();
-    for r in &inp.root_refs {
-        rb = rb.appender(r.clone());
+    for _ in 0..cut {
+        if let Some(x) = it.next() {
+            b = one(b, x);
+        }
     }
+    let rest: Vec<T> = it.collect();
+    if style % 5 == 3 && rest.len() >= 2 {
+        // two bulks
+        let mut rest = rest;
+        let tail = rest.split_off(rest.len() / 2);
+        b = many(b, rest);
+        return many(b, tail);
+    }
+    many(b, rest)
+}
+
+fn builder_of(inp: &Input, sink: &routing::Sink) -> (log4rs::config::runtime::ConfigBuilder, Root) {
+    // the mixture is a function of the input, so that strict and lossy builds of one input use the same calls
+    let style = inp.appenders.len() + 3 * inp.loggers.len() + inp.root_refs.len();
+    let apps: Vec<Appender> = inp.appenders.iter().enumerate().map(|(i, a)| Appender::builder().build(
+        a.clone(), Box::new(Cap { name: format!("{}#{}", a, i), sink: sink.clone() }))).collect();
+    let mut b = feed(Config::builder(), apps, style, |b, a| b.appender(a), |b, v| b.appenders(v));
+    let logs: Vec<Logger> = inp.loggers.iter().enumerate().map(|(k, l)| {
+        let lb = feed(Logger::builder().additive(l.additive), l.refs.clone(), style + k, |b, r| b.appender(r), |b, v| b.appenders(v));
+        lb.build(l.name.clone(), l.level)
+    }).collect();
+    b = feed(b, logs, style / 5, |b, l| b.logger(l), |b, v| b.loggers(v));
+    let rb = feed(Root::builder(), inp.root_refs.clone(), style / 3, |b, r| b.appender(r), |b, v| b.appenders(v));
     (b, rb.build(inp.root_level))
 }
 
